@@ -5,6 +5,23 @@ use super::{
 };
 
 impl DeclarationElsewhere {
+    /// Does following the type aliases from this reference lead back into the chain
+    /// (`A ::= B`, `B ::= A`)?
+    pub fn is_alias_cycle(&self, tlds: &BTreeMap<String, ToplevelDefinition>) -> bool {
+        let mut current = self;
+        let mut seen: Vec<&str> = Vec::new();
+        loop {
+            if seen.contains(&current.identifier.as_str()) {
+                return true;
+            }
+            seen.push(&current.identifier);
+            match tlds.get(&current.identifier) {
+                Some(ToplevelDefinition::Type(ToplevelTypeDefinition { ty: ASN1Type::ElsewhereDeclaredType(e), .. })) => current = e,
+                _ => return false,
+            }
+        }
+    }
+
     pub fn root<'a>(
         &self,
         tlds: &'a BTreeMap<String, ToplevelDefinition>,
